@@ -209,3 +209,15 @@ func (p *Plan) judges(id string) bool {
 	}
 	return false
 }
+
+// sameID: two instances of the plan share one InstanceID.
+func (p *Plan) sameID() bool {
+	for i := range p.Insts {
+		for j := 0; j < i; j++ {
+			if p.Insts[i].ID == p.Insts[j].ID {
+				return true
+			}
+		}
+	}
+	return false
+}
